@@ -632,9 +632,11 @@ fn option_scenario_inner(run: &Run, lines: &[String]) {
 
 fn option_scenario(run: &'static Run, lines: &[String]) {
     let l2 = lines.to_vec();
-    if crate::util::with_timeout(90, move || option_scenario_inner(run, &l2)).is_none() {
+    // 90 s for a short scenario; long ones (all 1025 table sizes in one process) get 3 s more per command
+    let limit = 90 + 3 * lines.len() as u64;
+    if crate::util::with_timeout(limit, move || option_scenario_inner(run, &l2)).is_none() {
         let case = J::obj(vec![("kind", J::s("uci-options")), ("lines", J::Arr(lines.iter().map(|l| J::s(l.clone())).collect()))]);
-        run.violation("option-command-blocks", format!("option-command-blocks|{}", lines.join(" ; ")), case, format!("the command loop did not come back within 90 s during [{}] (blocked command or dead harness thread)", lines.join(" ; ")));
+        run.violation("option-command-blocks", format!("option-command-blocks|{}", lines.join(" ; ")), case, format!("the command loop did not come back within {limit} s during [{}] (blocked command or dead harness thread)", lines.join(" ; ")));
     }
 }
 
